@@ -4,9 +4,12 @@
    managers, and what the implementation showed: the reference run (no interrupt configuration) and
    every call of the interrupted run driven through the byte store until completion.
    The model side is Model/Interrupt.v ([run_drive] = RunLoop.drive over the channel layer of
-   Model/Graph.v); the comparison lives in Model/IntrObs.v (shared with C06). *)
+   Model/Graph.v); the comparison lives in Model/IntrObs.v. C05 compares the observables the property
+   itself constrains ([whole_ok]: how the run ends, the executions and the state pre-handler runs of the
+   whole run, and the reference run); where the run is interrupted and what each interrupt reports is
+   compared by C06 on the same cases. *)
 From Eino Require Import Base.Util Model.Graph Model.RunLoop Model.Interrupt Model.IntrObs.
 
 Definition ccase := icase.
-Definition bad (c : ccase) : bool := icase_bad c.
+Definition bad (c : ccase) : bool := icase_bad_c05 c.
 Definition mismatches (cs : list ccase) : list nat := mismatches_from bad 0 cs.
